@@ -53,6 +53,34 @@ def r1(ctx: Context, sites) -> None:
                     break
             o = guard is not None and ast.unparse(guard.test) == f"{f.params[2]}.is_final()" and not guard.orelse or guard is None
             ctx.add("R1", f"{f.qualname}::release-whenever-final", bool(o), f.loc(c), "" if o else f"the release is conditioned on {ast.unparse(guard.test) if guard is not None else '?'} instead of `status.is_final()`")
+            # nothing that can fail (a call into another component: history, triggers, ...) lies between the accepted
+            # transition and the release: the invocation is already final when such a call raises, its waiters would stay
+            # recorded as waiting for good
+            tset = {n.id for n in cfg_node_of(g, f.node, trans[0], pm)}
+            rset = {n.id for n in rn}
+            between = None
+            for oc in calls_in(f.node):
+                if oc is c or oc is trans[0] or not isinstance(oc.func, ast.Attribute):
+                    continue
+                recv = ast.unparse(oc.func.value)
+                if not (recv.startswith("self.app.") or recv == "self.app"):
+                    continue
+                on = {n.id for n in cfg_node_of(g, f.node, oc, pm)}
+                # reachable: transition -> oc -> release (normal edges)
+                def _reach(src: set[int]) -> set[int]:
+                    seen_: set[int] = set()
+                    st_ = list(src)
+                    while st_:
+                        x_ = st_.pop()
+                        for s_, l_ in g.succ[x_]:
+                            if l_ != "exc" and s_ not in seen_:
+                                seen_.add(s_)
+                                st_.append(s_)
+                    return seen_
+                if on & _reach(tset) and rset & _reach(on):
+                    between = oc
+                    break
+            ctx.add("R1", f"{f.qualname}::release-is-the-first-effect-after-the-transition", between is None, f.loc(between) if between is not None else f.loc(c), "" if between is None else f"`{ast.unparse(between)[:60]}` runs between the accepted final transition and release_waiters: if it raises, the invocation is final but every invocation waiting on it keeps its wait edge - it is reported as 'itself waiting' for ever and its own waiters are never offered")
             # the is_final branch itself is on every normal path after the transition
             if guard is not None:
                 dom = g.dominators(exc_edges=False)
@@ -273,11 +301,94 @@ def _anc(pm, node):
         cur = pm.get(id(cur))
 
 
+def r4(ctx: Context) -> None:
+    """A wait is recorded against the waiter's id: an invocation created inside a running one must carry that id."""
+    from ..flow import build_cfg, reaching_definitions, negate, _conjuncts
+
+    ctx.rule("R4", "a child invocation knows its parent on every path: in DistributedInvocation.from_parent the parent_invocation_id handed to the constructor is the parent's invocation id whenever a parent was given (whatever workflow branch was taken) - result() / waiting_for_results use it as the waiter id; with None the wait is recorded nowhere and the runner keeps the slot busy")
+    di = ctx.repo.cls("DistributedInvocation")
+    f = di.methods.get("from_parent")
+    if f is None:
+        raise AnalysisError("anchor-vanished: DistributedInvocation.from_parent")
+    p_parent = f.params[2] if len(f.params) > 2 else "parent_invocation"
+    ctors = [c for c in calls_in(f.node) if isinstance(c.func, ast.Name) and c.func.id in ("cls", di.name) and any(k.arg == "parent_invocation_id" for k in c.keywords)]
+    if not ctors:
+        raise AnalysisError("anchor-vanished: from_parent constructs no invocation with parent_invocation_id")
+    g = build_cfg(f.node)
+    pm = parent_map(f.node)
+    defs, IN = reaching_definitions(g)
+
+    def is_parent_id(v: ast.AST) -> bool:
+        return isinstance(v, ast.Attribute) and v.attr == "invocation_id" and isinstance(v.value, ast.Name) and v.value.id == p_parent
+
+    def none_edge(t_ast: ast.AST, lab: str) -> bool:
+        cond = t_ast if lab == "true" else negate(t_ast)
+        for c_ in _conjuncts(cond):
+            if isinstance(c_, ast.Compare) and len(c_.ops) == 1 and isinstance(c_.ops[0], ast.Is) and isinstance(c_.left, ast.Name) and c_.left.id == p_parent and isinstance(c_.comparators[0], ast.Constant) and c_.comparators[0].value is None:
+                return True
+            if isinstance(c_, ast.UnaryOp) and isinstance(c_.op, ast.Not) and isinstance(c_.operand, ast.Name) and c_.operand.id == p_parent:
+                return True
+        return False
+
+    for k, c in enumerate(ctors):
+        v = next(kw.value for kw in c.keywords if kw.arg == "parent_invocation_id")
+        why = None
+        if isinstance(v, ast.IfExp):
+            t_ok = (isinstance(v.test, ast.Name) and v.test.id == p_parent) or ast.unparse(v.test) == f"{p_parent} is not None"
+            if not (t_ok and is_parent_id(v.body)):
+                why = f"`{ast.unparse(v)[:60]}` is not `<parent>.invocation_id if <parent> else None`"
+        elif is_parent_id(v):
+            why = None
+        elif isinstance(v, ast.Name):
+            cn = {n.id for n in cfg_node_of(g, f.node, c, pm)}
+            rd = {d for nid in cn for d in IN[nid] if d.name == v.id}
+            if not rd:
+                why = f"`{v.id}` has no definition"
+            for d in rd:
+                if d.value is not None and is_parent_id(d.value):
+                    continue
+                if d.value is not None and isinstance(d.value, ast.IfExp) and is_parent_id(d.value.body):
+                    continue
+                # a None (or other) definition may reach the constructor only along paths on which no parent was given
+                strong = {x.node for x in defs if x.name == v.id and x is not d}
+                seen: set[int] = set()
+                stack = [d.node]
+                hit = False
+                while stack and not hit:
+                    x = stack.pop()
+                    for s_, l_ in g.succ[x]:
+                        nd = g.nodes[x]
+                        if nd.kind == "test" and nd.ast is not None and l_ in ("true", "false") and none_edge(nd.ast, l_):
+                            continue
+                        if l_ == "exc" or s_ in seen:
+                            continue
+                        if s_ in cn:
+                            hit = True
+                            break
+                        if s_ in strong:
+                            continue
+                        seen.add(s_)
+                        stack.append(s_)
+                # the definition itself may sit under the `parent is None` branch
+                if hit:
+                    from ..flow import conditions_at
+
+                    holder = next((n_.ast for n_ in g.nodes if n_.id == d.node and n_.ast is not None), None)
+                    under_none = holder is not None and any(none_edge(c_, "true") for c_ in conditions_at(g, f.node, holder, pm))
+                    if not under_none:
+                        why = f"`{v.id} = {ast.unparse(d.value) if d.value is not None else '?'}` reaches the constructor on a path where a parent was given"
+        else:
+            why = f"`{ast.unparse(v)[:60]}`"
+        ctx.add("R4", f"{f.qualname}::child-carries-the-parents-id::{k}", why is None, f.loc(c), "" if why is None else f"{why}: the child is created without parent_invocation_id although it runs inside the parent - the parent's result() wait is recorded against None, no edge is stored, the runner never marks the parent as waiting and a single-slot runner deadlocks on the sub-task")
+    ctx.floor("R4", "invocation constructions in from_parent", len(ctors), 1)
+
+
 def run(ctx: Context) -> None:
     sites = sqlmini.sites(ctx.repo)
     r1(ctx, sites)
     r2(ctx, sites)
     r3(ctx)
+    r4(ctx)
     ctx.exhaustive = True
     ctx.not_decided += [
         "that the in-memory ready set equals its definition after arbitrary histories (a data-structure invariant over histories: needs execution or a proof assistant); only its maintenance statements are checked",
